@@ -85,6 +85,13 @@ type Sim struct {
 	Log []TxLogItem
 
 	ShortReply map[byte]int // reply kind -> its data field is cut to this many bytes (a malformed reply to a request)
+	// ReplyDelay: the reply to a request of this kind (for 'Y': "Y"+remote callsign) is written after this delay, without holding
+	// up the replies to other requests (a TNC that answers one station's poll, or a version request, late)
+	ReplyDelay map[string]time.Duration
+	// MuxName (remote callsign -> connection name) switches on the per-connection log Mux: "D" and "YReq" as the frames arrive,
+	// "YRep" (with the count) as the reply is written, and the driver's "FlushCall" / "FlushRet" notes
+	MuxName map[string]string
+	Mux     []MuxItem
 
 	Received  []Frame // every frame the TNC received, in order
 	dataAt    []time.Time
@@ -92,6 +99,25 @@ type Sim struct {
 	closed    bool
 	ready     chan struct{}
 	OnFrame   func(f Frame)
+}
+
+type MuxItem struct {
+	Op string `json:"op"`
+	C  string `json:"c"`
+	N  int    `json:"n"`
+}
+
+// NoteMux adds a driver event about connection c to the per-connection log.
+func (s *Sim) NoteMux(op, c string) {
+	s.mu.Lock()
+	s.Mux = append(s.Mux, MuxItem{op, c, 0})
+	s.mu.Unlock()
+}
+
+func (s *Sim) MuxLog() []MuxItem {
+	s.mu.Lock()
+	defer s.mu.Unlock()
+	return append([]MuxItem(nil), s.Mux...)
 }
 
 type TxLogItem struct {
@@ -176,6 +202,9 @@ func (s *Sim) outstanding(from, to string) int {
 	now := time.Now()
 	for i, f := range s.Received {
 		if f.Kind == 'D' && now.Sub(s.dataAt[i]) < s.HoldTime {
+			if from != "" && !((f.From == from && f.To == to) || (f.From == to && f.To == from)) {
+				continue // another connection's frame
+			}
 			n++
 		}
 	}
@@ -208,6 +237,9 @@ func (s *Sim) serve() {
 		if f.Kind == 'D' {
 			s.Log = append(s.Log, TxLogItem{"D", len(f.Data)})
 		}
+		if name, ok := s.MuxName[f.To]; ok && (f.Kind == 'D' || f.Kind == 'Y') {
+			s.Mux = append(s.Mux, MuxItem{map[byte]string{'D': "D", 'Y': "YReq"}[f.Kind], name, 0})
+		}
 		cb := s.OnFrame
 		s.mu.Unlock()
 		if cb != nil {
@@ -237,6 +269,25 @@ func (s *Sim) serve() {
 				reply = &Frame{Port: f.Port, Kind: 'C', From: f.To, To: f.From, Data: []byte("*** CONNECTED To Station " + f.To + "\r\x00")}
 			}
 		case 'Y':
+			if name, ok := s.MuxName[f.To]; ok {
+				// the count is taken, logged and written in one step, after the delay (if any)
+				f := f
+				answer := func() {
+					s.mu.Lock()
+					defer s.mu.Unlock()
+					n := s.outstanding(f.From, f.To)
+					s.Mux = append(s.Mux, MuxItem{"YRep", name, n})
+					d := make([]byte, 4)
+					binary.LittleEndian.PutUint32(d, uint32(n))
+					c.Write(Frame{Port: f.Port, Kind: 'Y', From: f.From, To: f.To, Data: d}.Encode())
+				}
+				if d, ok := s.ReplyDelay["Y"+f.To]; ok {
+					go func() { time.Sleep(d); answer() }()
+				} else {
+					answer()
+				}
+				continue
+			}
 			s.mu.Lock()
 			n := s.outstanding(f.From, f.To)
 			s.Log = append(s.Log, TxLogItem{"Y", n})
@@ -250,6 +301,15 @@ func (s *Sim) serve() {
 		if reply != nil {
 			if n, ok := s.ShortReply[reply.Kind]; ok && len(reply.Data) > n {
 				reply.Data = reply.Data[:n]
+			}
+			dk := string(rune(f.Kind))
+			if f.Kind == 'Y' {
+				dk += f.To
+			}
+			if d, ok := s.ReplyDelay[dk]; ok {
+				b := reply.Encode()
+				go func() { time.Sleep(d); c.Write(b) }()
+				continue
 			}
 			c.Write(reply.Encode())
 		}
